@@ -132,6 +132,54 @@ def oracle_query(proj: dict, values: Dict[Any, Any], q: List[Any], res: Any) -> 
     return None
 
 
+def demands_resolution(proj: dict, values: Dict[Any, Any], q: List[Any]) -> Optional[str]:
+    """'direct' when q's name is imported in its own scope directly from the module that defines the object, 'alias' when it
+    reaches the object through a module alias (the two cases the property text says ALWAYS resolve), else None."""
+    m, qual, dotted, v = q[:4]
+    if v is None or v[0] != 'obj':
+        return None
+    parts = dotted.split('.')
+    binders = import_binders(proj, m, qual)
+    if len(parts) == 1 and parts[0] in binders and binders[parts[0]][0] == 'from':
+        _, x, orig = binders[parts[0]]
+        if v[1] == x and v[2] == orig:
+            return 'direct'
+    if len(parts) == 2 and parts[0] in binders:
+        kv = values.get((m, tuple(qual), parts[0]))
+        b = binders[parts[0]]
+        is_alias = kv is not None and kv[0] == 'mod' and (
+            (b[0] == 'module' and b[1] == kv[1]) or (b[0] == 'from' and b[1] + '.' + b[2] == kv[1]))
+        if is_alias and v[1] == kv[1] and v[2] == parts[1]:
+            return 'alias'
+    return None
+
+
+def oracle_find(proj: dict, values: Dict[Any, Any], q: List[Any], res: Any, fnd: Any) -> Optional[Tuple[str, str]]:
+    """The property on System.find_object(expandName(name)) -- the lookup of possibly moved objects that linker and
+    base-class resolution fall back to (anchor `model.System.find_object`): it answers the object Python binds or nothing;
+    for a name imported directly from the defining module / reached through a module alias it always answers.
+    fnd = ['obj', fullName, id, kind] | ['none'] | ['LookupError', text]."""
+    m, qual, dotted, v = q[:4]
+    if v is None or fnd is None or res is None or res[0] is None:
+        return None
+    want = cp_ident(v)
+    where = '.'.join([m] + qual)
+    if fnd[0] == 'obj':
+        if res[2] is not None and res[2][0] == fnd[1]:
+            return None     # the very object resolveName answered: judged by oracle_query already
+        if fnd[2] != want or (v[0] == 'mod') != (fnd[3] in (0, 1)):
+            return ('find-wrong-object', 'in %s the name %r is %s at run time; it expands to %r and System.find_object gives %s '
+                    '(defined as %s)' % (where, dotted, want, res[1], fnd[1], fnd[2]))
+        return None
+    how = demands_resolution(proj, values, q)
+    if how is not None:
+        return ('find-%s-unresolved' % how,
+                'in %s the name %r (%s) is %s at run time; it expands to %r and System.find_object answers %s'
+                % (where, dotted, 'imported directly from its defining module' if how == 'direct' else 'reached through a module alias',
+                   want, res[1], 'None (external)' if fnd[0] == 'none' else 'LookupError(%s)' % fnd[1]))
+    return None
+
+
 # ------------------------------------------------------------------ corpus (boundary cases of DESIGN.md 5.C04 / 7.3)
 def M(name: str, body: List[Any], pkg: bool = False, all_: Optional[List[str]] = None) -> dict:
     return {'name': name, 'pkg': pkg, 'all': all_, 'body': body}
@@ -283,6 +331,58 @@ def matrix_projects() -> List[dict]:
     return out
 
 
+def prefix_root_projects() -> List[dict]:
+    """Several ROOTS whose names are string-prefix related (core / coretools; a root module co.py beside a package cox), the
+    shorter one added first: definer root x consumer root x import form x re-export (x re-exporter root) x order."""
+    out = []
+    for short, long_, short_pkg in (('core', 'coretools', True), ('ab', 'abq', True), ('co', 'cox', False), ('p', 'p_', True)):
+        for droot in (long_, short):
+            oroot = short if droot == long_ else long_
+            if droot == short and not short_pkg:
+                D = short
+            else:
+                D = droot + '.impl'
+            for C in (droot + '.user' if '.' in D else None, oroot + '.user' if (oroot != short or short_pkg) else None, 'zuser'):
+                if C is None:
+                    continue
+                forms = [('from_abs', [['from', 0, D, [['Foo', None]]]], 'Foo'),
+                         ('from_as', [['from', 0, D, [['Foo', 'Bar']]]], 'Bar'),
+                         ('import_as', [['import', D, 'al']], 'al.Foo'),
+                         ('import_plain', [['import', D, None]], D + '.Foo')]
+                if '.' in D and C.startswith(droot + '.'):
+                    forms.append(('from_rel', [['from', 1, 'impl', [['Foo', 'R1']]]], 'R1'))
+                    forms.append(('from_pkg_sub', [['from', 1, '', [['impl', 'sm']]]], 'sm.Foo'))
+                for fname, stmts, expr in forms:
+                    for rex in (None, droot + '.api' if '.' in D else None, oroot + '.api' if (oroot != short or short_pkg) else None, 'zapi'):
+                        if rex is None and fname not in ('from_abs', 'import_as'):
+                            continue
+                        for rev in (False, True):
+                            mods = {}
+                            if short_pkg:
+                                mods[short] = M(short, [], True)
+                                mods[short + '.base'] = M(short + '.base', [['class', 'BaseThing', None, []]])
+                            else:
+                                mods[short] = M(short, [['class', 'BaseThing', None, []]])
+                            mods[long_] = M(long_, [], True)
+                            mods[long_ + '.other'] = M(long_ + '.other', [['def', 'helper']])
+                            for n in (D, C, rex):
+                                if n is not None and n not in mods:
+                                    mods[n] = M(n, [])
+                            mods[D]['body'].append(['class', 'Foo', None, [['def', 'meth'], ['class', 'Inner', None, []]]])
+                            body = mods[C]['body']
+                            body.extend([list(x) for x in stmts])
+                            body.append(['class', 'K', expr, [['def', 'own']]])
+                            body.append(['alias', 'z', expr])
+                            body.append(['alias', 'zm', expr + '.meth'])
+                            if rex is not None:
+                                mods[rex]['body'].append(['from', 0, D, [['Foo', 'Pub']]])
+                                mods[rex]['all'] = ['Pub']
+                            names = sorted(mods)
+                            out.append({'tag': 'prefixroots-%s-%s-%s-%s-%s%s' % (short, D, C, fname, rex or 'plain', '-rev' if rev else ''),
+                                        'modules': [mods[n] for n in names], 'order': names[::-1] if rev else None})
+    return out
+
+
 def relative_project() -> dict:
     """every level 1..5 x {no module name, one component} from a package and a module at depths 1..3 (model vs pydoctor only:
     most of these do not import under CPython)."""
@@ -366,7 +466,7 @@ class Check(PropertyCheck):
         for i in range(n):
             rng = random.Random('%d/%d/%d' % (self.seed, seed_salt, i))
             size = 'small' if i % 5 == 0 else 'normal'
-            g = G.Gen(rng, size=size, simple=(i % 5 == 3), shadow=0.35)
+            g = G.Gen(rng, size=size, simple=(i % 5 == 3), shadow=0.35, prefix_roots=(i % 5 in (1, 3)))
             p = g.project()
             p['tag'] = 'gen-%d-%d' % (seed_salt, i)
             p['simple'] = (i % 5 == 3)
@@ -438,7 +538,12 @@ class Check(PropertyCheck):
             self.count('modules', len(p['modules']))
             self.count('queries', len(p['queries']))
             # oracle
-            for q, r in zip(p['queries'], pr['results']):
+            if len(G.roots_of(p)) > 1:
+                self.count('projects_multi_root')
+                rs = [x[:-3] if x.endswith('.py') else x for x in G.roots_of(p)]
+                if any(a != b and b.startswith(a) for a in rs for b in rs):
+                    self.count('projects_with_prefix_related_root_names')
+            for qi, (q, r) in enumerate(zip(p['queries'], pr['results'])):
                 if q[3] is None:
                     if len(q) > 4 and q[4] == 'unbound':
                         self.count('unbound_names_checked')
@@ -463,6 +568,21 @@ class Check(PropertyCheck):
                             'reexported_by': reexporters(p, values, ident) if q[3][0] == 'obj' else []}
                     if len([v for v in out if v.kind == 'oracle']) < 400:
                         out.append(Violation('oracle', text, case=dict(case, **info), expected=ident, observed=r))
+                fnd = pr.get('found')
+                f = fnd[qi] if fnd is not None and qi < len(fnd) else None
+                if f is not None:
+                    self.count('find_' + f[0])
+                    if f[0] == 'obj' and r[2] is None:
+                        self.count('find_object_followed_a_moved_name')
+                o = oracle_find(p, values, q, r, f)
+                if o is not None:
+                    why, text = o
+                    self.count('oracle_' + why)
+                    ident = cp_ident(q[3])
+                    info = {'why': why, 'query': q, 'observed': r, 'found': f, 'tag': p.get('tag'),
+                            'reexported_by': reexporters(p, values, ident) if q[3][0] == 'obj' else []}
+                    if len([v for v in out if v.kind == 'oracle']) < 400:
+                        out.append(Violation('oracle', text, case=dict(case, **info), expected=ident, observed=f))
             if oracle_only:
                 continue
             # correspondence model vs pydoctor, spec vs CPython
@@ -662,6 +782,9 @@ class Check(PropertyCheck):
         mat = matrix_projects()
         self.stats['matrix_projects'] = len(mat)
         out.extend(self.run_projects(mat))
+        pre = prefix_root_projects()
+        self.stats['prefix_root_projects'] = len(pre)
+        out.extend(self.run_projects(pre))
         self.exhaustive = True      # the matrix (definer x consumer x import form x re-export x order) and the relative-level grid are complete
         n = 300 if self.tier == 'quick' else 10000
         self.stats['random_projects'] = n
@@ -745,13 +868,20 @@ class Check(PropertyCheck):
             return 1
         values = {(q[0], tuple(q[1]), q[2]): q[3] for q in cp['queries']}
         bad = 0
-        for q, r in zip(queries, pd['results']):
+        print('roots in System.rootobjects order:', pd.get('rootorder'))
+        for qi, (q, r) in enumerate(zip(queries, pd['results'])):
             o = oracle_query(p, values, q, r)
-            print('namespace %-20s name %-24s CPython: %-28s pydoctor: expandName=%r resolveName=%r'
-                  % ('.'.join([q[0]] + q[1]), q[2], cp_ident(q[3]) or '(not bound)', r[1], r[2][0] if r[2] else None))
+            f = (pd.get('found') or [None] * (qi + 1))[qi]
+            print('namespace %-20s name %-24s CPython: %-28s pydoctor: expandName=%r resolveName=%r find_object=%r'
+                  % ('.'.join([q[0]] + q[1]), q[2], cp_ident(q[3]) or '(not bound)', r[1], r[2][0] if r[2] else None,
+                     (f[1] if f[0] == 'obj' else f[0] + (': ' + f[1] if len(f) > 1 else '')) if f else None))
             if o is not None:
                 bad += 1
                 print('   PROPERTY VIOLATED (%s): %s' % o)
+            o2 = oracle_find(p, values, q, r, f)
+            if o2 is not None:
+                bad += 1
+                print('   PROPERTY VIOLATED (%s): %s' % o2)
         print('property:', 'violated on %d name(s)' % bad if bad else 'holds on this input')
         return 1 if bad else 0
 
